@@ -409,7 +409,7 @@ def unit_orig_text(u, repo=None):
 # the list of `impl` headers and of `#[derive(..)]` attributes per type in each source file is recorded in
 # inventory_baseline.json; a new, removed or re-derived impl in a file that holds units of the property makes the check
 # UNDECIDED (then the witness search decides), never a violation by itself.
-def item_inventory(path, contracted=()):
+def item_inventory(path, contracted=(), unit_fns=None):
     """contracted: normalised `impl ...` keys (rstok.normalize_key) of impls that hold at least one unit under contract: their
     text is verified, so only their header is recorded; every OTHER trait impl is recorded with a hash of its text
     (comments removed), because its behaviour is trusted at the trait level for exactly that text."""
@@ -461,7 +461,43 @@ def item_inventory(path, contracted=()):
             elif it.kind == 'mod' and it.children and it.name not in ('tests', 'test'):
                 walk(it.children, prefix + 'mod %s :: ' % it.name)
     walk(items, '')
+    # functions with a body that are NOT under contract in any configuration (serde `serialize`/`deserialize` dispatchers, a
+    # few helpers): nothing is proved about them, so they are accepted for the recorded text only (`unit_fns` = canonical paths
+    # of the functions under contract, recorded with the baseline)
+    if unit_fns is not None:
+        ufs = set(unit_fns)
+
+        def fwalk(its):
+            for it in its:
+                if it.kind == 'mod' and it.name in ('tests', 'test'):
+                    continue
+                if it.kind == 'fn' and '#[test]' not in src[it.start:it.kw]:
+                    body = src[it.kw:it.end]
+                    if fn_canon(it.path()) not in ufs and '{' in body:
+                        own = body
+                        # the text of nested items under contract is verified: hash only what is outside them
+                        for ch in (it.children or []):
+                            own = own.replace(src[ch.start:ch.end], '')
+                        out.append('uncontracted fn ' + ' '.join(it.path().split())[:200] + ' #' + hashlib.sha256(strip(own).encode()).hexdigest()[:10])
+                if it.children:
+                    fwalk(it.children)
+        fwalk(items)
     return sorted(out)
+
+
+def fn_canon(path):
+    import rstok
+    return rstok.normalize_key(' :: '.join(re.sub(r'^fn\s+', '', seg.strip()) for seg in path.split(' :: ')))
+
+
+def unit_fn_keys(index, relfile):
+    """canonical paths of the functions of `relfile` that are under contract (proved or assumed, any configuration)"""
+    keys = set(fn_canon(u['path']) for u in index['units'] if u['file'] == relfile)
+    for w in index.get('wraps', []):
+        if w.get('file') == relfile:
+            for s_ in w.get('trait_impl_methods_assumed', []):
+                keys.add(fn_canon(s_['ident'].split(' :: ', 1)[1]))
+    return keys
 
 
 def contracted_impl_keys(index, relfile):
